@@ -9,7 +9,7 @@ from ref import httpstrict as S
 
 PROP = "C27"
 # per batch: client fault cases, server vanish cases, max-connection cases
-SIZES = dict(quick=(1, 1000, 220, 70), thorough=(50, 1000, 220, 70))
+SIZES = dict(quick=(1, 900, 200, 60), thorough=(50, 900, 200, 60))
 RULE = ("client: 1-5 queued requests (GET/POST, equal wire length) on one evhttp_connection with retries 0-3 and timeouts against a scripted raw "
         "server: refusal, close/reset/half-close after byte i of a request or byte k of a response (sampled in quick, every i and k for the small "
         "exchanges in thorough), stall until the virtual timeout, close after the response, junk, double responses, injected readv/writev errors, "
@@ -249,6 +249,10 @@ def judge_maxconn(meta, ev, st):
 def judge(meta, ev, st):
     if not ev or ev[-1][0] != "end":
         return []
+    if any(e[0] == "inflight-timeout" for e in ev):
+        # the kernel still had bytes queued after the harness' 3 s real-time watchdog: no verdict for this case
+        st["inflight_timeout_cases"] = st.get("inflight_timeout_cases", 0) + 1
+        return []
     kind = meta["kind"]
     out = {"client": judge_client, "server": judge_server, "maxconn": judge_maxconn}[kind](meta, ev, st)
     census = [e for e in ev if e[0] == "census"]
@@ -354,7 +358,7 @@ REG = dict(category="fault_enumeration",
                 "scripted raw-socket server that refuses, resets, half-closes or closes at chosen byte offsets of request and response, stalls, sends junk "
                 "or extra responses, plus injected readv/writev errors and 1-byte I/O; user cancels / frees the connection / stops the loop at callback "
                 "points; server side with vanishing raw clients, held and chunked replies, and max_connections overflow. Oracle: per-request callback "
-                "counts and ordering from the trace, wire-level response counts, memfault census == 0, ASan/UBSan/LSan. quick ~1.3e3 cases; thorough "
-                "~6.4e4 random + every byte offset of request and response of the small exchanges (1.3e4 cases). Held-on-observed.",
+                "counts and ordering from the trace, wire-level response counts, memfault census == 0, ASan/UBSan/LSan. quick ~1.2e3 cases; thorough "
+                "~5.8e4 random + every byte offset of request and response of the small exchanges (1.3e4 cases). Held-on-observed.",
            note="fault points are byte offsets as seen by the peer, user actions only at the callback points named in assumptions; trusts kernel loopback semantics",
            technique="trace oracle (exactly-once counting) + allocation census + sanitizers over enumerated peer faults")
